@@ -148,13 +148,13 @@ def anchors(doc):
 
 
 def alias_groups(doc):
-    """Sets (frozensets) of >= 2 positions holding one anchored object."""
+    """Sorted tuples of >= 2 positions holding one anchored object."""
     by_id = {}
     for pos, _parent, _ref, node in walk(doc):
         if node_anchor(node) is not None:
             by_id.setdefault(id(node), []).append(pos)
-    return sorted((frozenset(v) for v in by_id.values() if len(v) > 1),
-                  key=lambda s: sorted(map(repr, s)))
+    return sorted((tuple(sorted(v, key=repr)) for v in by_id.values()
+                   if len(v) > 1), key=repr)
 
 
 def full(doc):
